@@ -379,7 +379,9 @@ bool c04_run_stream_ep(const c04_op *op, c04_res *r, lzma_stream *reuse, unsigne
 				: ep[0] == 'a' ? lzma_auto_decoder(&strm, memlimit, flags) : lzma_lzip_decoder(&strm, memlimit, flags);
 		r->init_ret = (int)ir;
 		c04_check_ret(r, ep, (int)ir, R_OK | R_MEM | R_OPTIONS);
-		if ((flags & ~(uint32_t)SUPPORTED_FLAGS) ? ir != LZMA_OPTIONS_ERROR : (ir != LZMA_OK && ir != LZMA_MEM_ERROR))
+		// (with a failing allocator LZMA_MEM_ERROR may come first: c04_check_ret has verified that an allocation was refused)
+		if (ir != LZMA_MEM_ERROR
+				&& ((flags & ~(uint32_t)SUPPORTED_FLAGS) ? ir != LZMA_OPTIONS_ERROR : ir != LZMA_OK))
 			c04_bad(r, "%s-init-returned-%d-for-flags-0x%x", ep, (int)ir, flags);
 		if (ir == LZMA_OK) {
 			cfg.flags = flags;
@@ -403,7 +405,7 @@ bool c04_run_stream_ep(const c04_op *op, c04_res *r, lzma_stream *reuse, unsigne
 		r->timing = true;
 		c04_check_ret(r, ep, (int)ir, R_OK | R_MEM | R_MEMLIMIT | R_OPTIONS);
 		const bool bad_opts = (mt.flags & ~(uint32_t)SUPPORTED_FLAGS) || mt.threads == 0 || mt.threads > 16384;
-		if (bad_opts ? ir != LZMA_OPTIONS_ERROR : (ir != LZMA_OK && ir != LZMA_MEM_ERROR))
+		if (ir != LZMA_MEM_ERROR && (bad_opts ? ir != LZMA_OPTIONS_ERROR : ir != LZMA_OK))
 			c04_bad(r, "mt-init-returned-%d-for-flags-0x%x-threads-%u", (int)ir, mt.flags, mt.threads);
 		if (ir == LZMA_OK) {
 			cfg.flags = mt.flags;
@@ -462,7 +464,7 @@ bool c04_run_stream_ep(const c04_op *op, c04_res *r, lzma_stream *reuse, unsigne
 		r->init_ret = (int)ir;
 		// invalid option structs handed in by the application (chains >= 24) may be answered with LZMA_PROG_ERROR
 		c04_check_ret(r, ep, (int)ir, R_OK | R_MEM | R_OPTIONS | (op->p[0] >= 24 ? R_PROG : 0));
-		if (op->p[0] >= 24 && ir != LZMA_OPTIONS_ERROR && ir != LZMA_PROG_ERROR)
+		if (op->p[0] >= 24 && ir != LZMA_OPTIONS_ERROR && ir != LZMA_PROG_ERROR && ir != LZMA_MEM_ERROR)
 			c04_bad(r, "raw-init-accepted-invalid-chain-%u:%d", (unsigned)op->p[0], (int)ir);
 		if (op->p[0] < 24 && ir == LZMA_OPTIONS_ERROR)
 			c04_bad(r, "raw-init-refused-valid-chain-%u", (unsigned)op->p[0]);
